@@ -374,6 +374,11 @@ CONFIGS: Dict[str, Dict[str, Any]] = {
     "gcc-O2-BE": dict(cc="gcc", flags=["-O2", "-DBP_BIG_ENDIAN", "-DDRV_BE_STORAGE"], single=True),
     "clang-O2-BE": dict(cc="clang", flags=["-O2", "-DBP_BIG_ENDIAN", "-DDRV_BE_STORAGE"], single=False),
     "gcc-asan-BE": dict(cc="gcc", flags=["-O1", "-DBP_BIG_ENDIAN", "-DDRV_BE_STORAGE"] + SAN, single=False, asan=True),
+    # other include contexts on this little-endian host: a project-wide prefix header, and a unity build whose libc includes come first
+    # (<endian.h> and friends are then visible before the runtime's byte-order detection: it must still say little-endian)
+    "gcc-O0-prefix-header": dict(cc="gcc", flags=["-O0", "-include", "stdlib.h", "-include", "sys/types.h", "-include", "time.h", "-include", "endian.h"], single=False),
+    "gcc-O2-single-libc-first": dict(cc="gcc", flags=["-O2"], single=True, libc_first=True),
+    "clang-O1-prefix-header": dict(cc="clang", flags=["-O1", "-include", "stdlib.h", "-include", "pthread.h", "-include", "sys/param.h"], single=False),
     # emulated big-endian HOST (vlib/be_emu.py): unoptimised IR with every multi-byte integer access byte-swapped, sources
     # preprocessed with __BYTE_ORDER__ == __ORDER_BIG_ENDIAN__ (the code's own detection decides), native back end at -O0/-O1/-O2
     "emu-BE-O0": dict(emu=True, backend="-O0"),
@@ -418,6 +423,8 @@ def build(directory: str, root: File, config: str, optimize: bool = False, exe_n
     if cfg.get("single"):
         single = os.path.join(directory, f"single-{config}.c")
         with open(single, "w") as fh:
+            if cfg.get("libc_first"):
+                fh.write("#define _GNU_SOURCE\n#include <stdlib.h>\n#include <sys/types.h>\n#include <sys/param.h>\n#include <time.h>\n#include <endian.h>\n#include <pthread.h>\n")
             for s in srcs:
                 fh.write(f'#include "{s}"\n')
         cmd = [cfg["cc"]] + flags + [single, "-o", exe]
